@@ -5,6 +5,7 @@ import (
 	"fmt"
 	"math/rand"
 	"strings"
+	"sync"
 	"time"
 
 	"github.com/yandex/mysync/internal/config"
@@ -86,6 +87,7 @@ func c07Scenario(u *Unit, name string, sh c07Shape, fault *c07Fault) (*Tracker, 
 		}
 		newDualAck(sc, "C07")
 		newFromHostMonitor(sc)
+		newRequestIdentityMonitor(sc)
 		tr = NewTracker(sc)
 		if fault != nil {
 			tr.Target, tr.Kind = &fault.B, fault.Kind
@@ -263,6 +265,51 @@ func c07Scenario(u *Unit, name string, sh c07Shape, fault *c07Fault) (*Tracker, 
 			sh.Req, mgr, fault, tr.Hit, successor, succKind, ok, master, can.Master, ackedBetween(sc, 0, 1e12), strings.Contains(last, `"ok":true`), rej != "")
 	})
 	return tr, res
+}
+
+// newRequestIdentityMonitor: "the next manager finishes or rejects THE pending request" - a request is identified by
+// (initiated_by, initiated_at) (that is how `mysync switch --wait` finds its outcome in last_switch, and what
+// switchover_timeout is counted from); while it sits in the switch key no daemon may rewrite that identity, and the
+// terminal record a daemon writes must carry the identity of the request that was pending.
+func newRequestIdentityMonitor(sc *Scen) {
+	s := sc.S
+	var mu sync.Mutex
+	pendID, pendBy := "", ""
+	s.OnZK(func(r fakezk.Rec) {
+		key := strings.TrimPrefix(r.Path, NS+"/")
+		if key != "switch" && key != "last_switch" && key != "last_rejected_switch" {
+			return
+		}
+		mu.Lock()
+		defer mu.Unlock()
+		if r.Op == "delete" {
+			if key == "switch" {
+				pendID, pendBy = "", ""
+			}
+			return
+		}
+		if r.Op != "create" && r.Op != "set" {
+			return
+		}
+		var rec swRec
+		if json.Unmarshal([]byte(r.Data), &rec) != nil {
+			return
+		}
+		if key == "switch" {
+			if r.Op == "set" && pendID != "" && isDaemon(s, r.Client) && rec.InitiatedBy == pendBy && rec.id() != pendID {
+				sc.Violate("C07", "pending-request-changed-its-identity", fmt.Sprintf("%s rewrote the pending request %s as %s (started_by %s, run_count %d): its age and the identity its initiator waits for start again", r.Client, pendID, rec.id(), rec.StartedBy, rec.RunCount))
+			}
+			if pendID != "" && rec.id() == pendID && isDaemon(s, r.Client) {
+				sc.Cover("pending-request-rewritten-with-its-identity-kept")
+			}
+			pendID, pendBy = rec.id(), rec.InitiatedBy
+			return
+		}
+		// a terminal record written while a request is pending is the outcome of that request
+		if pendID != "" && isDaemon(s, r.Client) && rec.Result != nil && rec.InitiatedBy == pendBy && rec.id() != pendID {
+			sc.Violate("C07", "outcome-recorded-under-another-identity", fmt.Sprintf("%s wrote %s for %s while the pending request is %s", r.Client, key, rec.id(), pendID))
+		}
+	})
 }
 
 // newFromHostMonitor judges C14's cluster-level clause: a request that moves the master away from a host is never
